@@ -22,6 +22,12 @@ either of the first two).  Monitors:
   stream.stored      flow.*.raw_content is None when store_streamed_bodies is off, the relayed bytes when on
   relay.buffered     buffered messages arrive whole and are kept in the flow
 
+Early-answering origins: for items whose request is streamed, the origin may answer as soon as it holds the request HEAD (20 % of
+the cases are built around this, with store_streamed_bodies mostly on); for most of them the rest of the upload is held until that
+answer has reached the proxy, so the response (its limit check, its switch to streaming, its relay) is handled while the streamed
+request is still open.  The oracle is unchanged: limit and streaming are decided by the RESPONSE's own size; a response that must be
+refused is judged alone (the upload is legitimately cut short).
+
 HTTP/2 legs (30 % of the cases, run_h2_case): a streamed response towards an HTTP/2 client, or a streamed request towards an
 HTTP/2 origin (vf/peers_c07_h2.py, h2 library), where the HTTP/2 peer announces a tiny SETTINGS_INITIAL_WINDOW_SIZE (1 .. 5000)
 and re-opens its stream window in random increments of 1..k bytes (k in 1..400, one WINDOW_UPDATE per segment) while the
@@ -46,7 +52,7 @@ WORKERS = {"quick": 4, "thorough": 16}
 REQUIRED = [
     "limit.error", "limit.client", "limit.not_forwarded", "limit.exact", "m3.bound", "m3.streaming",
     "stream.engaged", "stream.input", "stream.exact", "stream.stored", "relay.buffered", "dir.request.abort", "dir.response.abort",
-    "dir.request.stream", "dir.response.stream", "stream.exact.h2", "h2.backpressure_cases.h2-client", "h2.backpressure_cases.h2-server",
+    "dir.request.stream", "dir.response.stream", "early.response_head_before_request_end", "early.response_abort", "stream.exact.h2", "h2.backpressure_cases.h2-client", "h2.backpressure_cases.h2-server",
 ]
 TECHNIQUE = "runtime monitoring: sans-io exploration with a per-step buffer-length hook on the live layer graph + independent wire reader and threshold model"
 RULE = (
@@ -186,6 +192,7 @@ def run_case(ctx, opts):
     by_tag = {it["req"]["tag"]: it for it in items}
     addon = StreamAddon(case)
     m3log = []  # (step, 'req'|'resp', buffered length, message.stream truthy)
+    early_answered = set()
 
     def m3(drv):
         for lay in drv.context.layers:
@@ -214,6 +221,7 @@ def run_case(ctx, opts):
 
         pos = 0
         inflight_chunked = False
+        early_done = ()
 
         def on_data(self_, data):
             buf = self_.received
@@ -231,6 +239,16 @@ def run_case(ctx, opts):
                 except ref.Incomplete:
                     he = buf.find(b"\r\n\r\n", self_.pos)
                     self_.inflight_chunked = he >= 0 and b"chunked" in buf[self_.pos : he].lower()
+                    if he >= 0:
+                        # early-answering origin: the complete request HEAD is here, the (streamed) body is still uploading
+                        m_ = TAG.search(buf[self_.pos : he])
+                        it_ = by_tag.get(m_.group(0)) if m_ else None
+                        if it_ is not None and it_.get("early") and m_.group(0) not in self_.early_done:
+                            self_.early_done = tuple(self_.early_done) + (m_.group(0),)
+                            early_answered.add(m_.group(0))
+                            ctx.count("early.origin_answered_at_head")
+                            for s in g.segments(it_["resp"]["raw"], r, case["server_seg"], case["fixed_seg"]):
+                                self_.send(s)
                     return
                 except ref.Reject as e:
                     self_.status = "reject"
@@ -240,6 +258,9 @@ def run_case(ctx, opts):
                 self_.inflight_chunked = False
                 self_.requests.append(msg)
                 self_.answered += 1
+                m_ = TAG.search(msg["target"])
+                if m_ and m_.group(0) in self_.early_done:
+                    continue  # already answered at the head
                 data, close_after = responder(self_.answered - 1, msg, self_)
                 for s in g.segments(data, r, case["server_seg"], case["fixed_seg"]):
                     self_.send(s)
@@ -269,7 +290,28 @@ def run_case(ctx, opts):
     if mode == "transparent":
         d.context.server.address = ("example.com", 80)
     stream = b"".join(it["req"]["raw"] for it in items)
-    d.attach_client_peer(sansio.ScriptPeer(g.segments(stream, r, case["client_seg"], case["fixed_seg"])))
+    csegs = g.segments(stream, r, case["client_seg"], case["fixed_seg"])
+    # early-answering origin: hold the rest of the upload (after the head and at least one body byte) until the origin's early answer
+    # has been delivered to the proxy, so that the response is handled while the streamed request is still open
+    off = 0
+    for it in items:
+        if it.get("early") and (it["rq_plan"]["framing"] == "cl" or it["rq_plan"]["action"]) and r.random() < 0.7:
+            hold_from = off + it["req"]["head_len"] + 8
+            tag_ = it["req"]["tag"]
+
+            def gate(drv, tag_=tag_):
+                return tag_ in early_answered and not drv.pending and not any(q for c, q in drv.inbox.items() if c is not drv.client)
+
+            pos_ = 0
+            for j, sg in enumerate(csegs):
+                if pos_ >= hold_from and pos_ < off + len(it["req"]["raw"]):
+                    csegs[j] = (sg, gate)
+                    ctx.count("early.upload_held_for_answer")
+                    break
+                pos_ += len(sg)
+            break
+        off += len(it["req"]["raw"])
+    d.attach_client_peer(sansio.ScriptPeer(csegs))
     d.start()
     d.run()
     client_closed_before_teardown = d.peers[d.client].got_eof
@@ -370,7 +412,7 @@ def run_case(ctx, opts):
         tag = rq["tag"]
         qcls = g.classify_plan(qp, L, T)
         scls = g.classify_plan(sp, L, T)
-        sig_items.append(("req", qp["framing"], rel(qp["n"], L), rel(qp["n"], T), qp["action"] or "-", qcls, "resp", sp["framing"], rel(sp["n"], L), rel(sp["n"], T), sp["action"] or "-", scls, "expect" in rq["feats"]))
+        sig_items.append(("req", qp["framing"], rel(qp["n"], L), rel(qp["n"], T), qp["action"] or "-", qcls, "resp", sp["framing"], rel(sp["n"], L), rel(sp["n"], T), sp["action"] or "-", scls, "expect" in rq["feats"], bool(it.get("early"))))
         if not alive:
             ctx.count("skipped_after_abort")
             continue
@@ -383,6 +425,20 @@ def run_case(ctx, opts):
         names = [n for _, n in rec["hooks"]]
         steps = {n: s for s, n in rec["hooks"]}
         size_error = bool(f.error and "body_size_limit" in f.error.msg)
+
+        # ===== early-answered item whose response must be refused: the upload is legitimately cut short, judge the response only
+        r_aborted = "error" in names and "response" not in names and size_error and "responseheaders" in names
+        if it.get("early"):
+            ctx.count("early.items")
+            if "responseheaders" in steps and ("request" not in steps or steps["responseheaders"] < steps["request"]):
+                ctx.count("early.response_head_before_request_end")
+        if it.get("early") and (scls == "abort" or (scls == "abort-or-stream" and r_aborted)):
+            nontrivial = True
+            ctx.count("dir.response.abort")
+            ctx.count("early.response_abort")
+            check_abort(ctx, d, wit, "response", it, rec, names, down.get(i, []), 502, client_closed_before_teardown, sent_100=False, hist=hist)
+            alive = False
+            continue
 
         # ===== request direction
         qcalls = addon.calls.get((tag, "req"))
